@@ -6,7 +6,8 @@ From PV Require Import M_Angles P_C15 P_C15_Q Gen_Angles.
 Import ListNotations.
 Open Scope R_scope.
 
-(* the assembly of get_angles as the source has it *)
+(* the assembly of get_angles as the source has it (the two folding functions themselves are tied to the model by the
+   correspondence check_fold on the executable mirror, not by their text) *)
 Theorem C15_source_shape :
   ang_get_angles_calls = ["self.get_times()"; "self.get_lonlat()"]%string /\
   ang_get_angles_times = ["self._times_as_np_datetime64"]%string /\
@@ -28,11 +29,7 @@ Theorem C15_source_shape :
   ang_with_tle_return = "(sat_azi, sat_elev)"%string /\
   ang_without_tle_look_args = ["self.lons[:, mid_column][:, np.newaxis]"; "self.lats[:, mid_column][:, np.newaxis]"; "sat_alt";
                                "self._times_as_np_datetime64[:, np.newaxis]"; "self.lons"; "self.lats"; "0"]%string /\
-  ang_without_tle_mid_column = "int(0.5 * self.lons.shape[1])"%string /\
-  (* the folding functions are the ones modelled *)
-  ang_centered_modulus_body = ["arr = array % divisor"; "arr[arr > divisor / 2] -= divisor"; "return arr"]%string /\
-  ang_get_absolute_azimuth_angle_diff_body = ["rel_azi = abs(sat_azi - sun_azi)"; "rel_azi = rel_azi % 360";
-                                              "rel_azi[rel_azi > 180] = 360.0 - rel_azi[rel_azi > 180]"; "return rel_azi"]%string.
+  ang_without_tle_mid_column = "int(0.5 * self.lons.shape[1])"%string.
 Proof. repeat (apply conj); vm_compute; reflexivity. Qed.
 Print Assumptions C15_source_shape.
 
